@@ -21,8 +21,10 @@ package main
 //	equal <schema id> <value a> <value b>   | 0/1
 
 import (
+	"bytes"
 	"fmt"
 	"math"
+	"strings"
 
 	"github.com/google/go-cmp/cmp"
 
@@ -620,6 +622,141 @@ func (d *equalRun) family(t *detTarget, depth int) {
 	}
 }
 
+
+// equalExtShapes enumerates, once per run, ALL pairs (x, y) of TestAllExtensions-like messages in
+// which each side independently has {no entry, an entry holding an empty list, a populated entry}
+// for each of three repeated extensions and {unset, set to its default, set} for each of two
+// singular ones (243 shapes, 59049 ordered pairs, so both argument orders), and compares
+// proto.Equal on the generated messages (table-driven algorithm in the default build), Value.Equal,
+// proto.Equal on dynamicpb twins and mixed pairs, equality of the canonical dumps (the content) and
+// equality of the deterministic encodings.  Failures are reported for property prop.
+func equalExtShapes(c *Ctx, prop string, typeName string, emit func(id string, a, b []string, eq bool)) {
+	mt := detFindType(typeName)
+	if mt == nil {
+		c.PropFail(prop, "corpus type not linked: "+typeName)
+		return
+	}
+	var reps, sings []protoreflect.ExtensionTypeDescriptor
+	for _, xd := range msgExtensionsOf(mt.Descriptor()) {
+		if xd.Message() != nil || xd.Kind() == protoreflect.FloatKind || xd.Kind() == protoreflect.DoubleKind {
+			continue
+		}
+		if xd.IsList() && len(reps) < 3 {
+			reps = append(reps, xd)
+		} else if !xd.IsList() && !xd.IsMap() && len(sings) < 2 {
+			sings = append(sings, xd)
+		}
+	}
+	if len(reps) < 3 || len(sings) < 2 {
+		c.PropFail(prop, "not enough extensions on "+typeName)
+		return
+	}
+	nonDefault := func(xd protoreflect.ExtensionTypeDescriptor) protoreflect.Value {
+		for i := 0; i < 50; i++ {
+			v := msgScalar(c, xd, false)
+			if !v.Equal(xd.Default()) {
+				return v
+			}
+		}
+		return msgScalar(c, xd, false)
+	}
+	repVal := []protoreflect.Value{msgScalar(c, reps[0], false), msgScalar(c, reps[1], false), msgScalar(c, reps[2], false)}
+	singVal := []protoreflect.Value{nonDefault(sings[0]), nonDefault(sings[1])}
+	type shape struct {
+		gen, dyn protoreflect.Message
+		dump     []string
+		key      string
+		det      []byte
+	}
+	var shapes []shape
+	n := 3 * 3 * 3 * 3 * 3
+	for code := 0; code < n; code++ {
+		m := mt.New()
+		k := code
+		for i, xd := range reps {
+			st := k % 3
+			k /= 3
+			switch st {
+			case 1: // an entry of the extension map holding an empty list
+				if i == 1 {
+					l := m.NewField(xd).List()
+					l.Append(repVal[i])
+					m.Set(xd, protoreflect.ValueOfList(l))
+					m.Get(xd).List().Truncate(0)
+				} else {
+					m.Set(xd, m.NewField(xd))
+				}
+			case 2:
+				l := m.NewField(xd).List()
+				l.Append(repVal[i])
+				m.Set(xd, protoreflect.ValueOfList(l))
+			}
+		}
+		for i, xd := range sings {
+			st := k % 3
+			k /= 3
+			switch st {
+			case 1:
+				m.Set(xd, xd.Default())
+			case 2:
+				m.Set(xd, singVal[i])
+			}
+		}
+		dyn := dynamicpb.NewMessage(mt.Descriptor())
+		detBuild(c, m, dyn, false)
+		det, err := detMarshal(m)
+		if err != nil {
+			c.PropFail(prop, "extension shape does not marshal: "+typeName)
+			return
+		}
+		dump := msgDump(m)
+		shapes = append(shapes, shape{m, dyn, dump, strings.Join(dump, " "), det})
+	}
+	id := ""
+	for i := range shapes {
+		for j := range shapes {
+			x, y := shapes[i], shapes[j]
+			want := x.key == y.key
+			fail := func(what string, got bool) {
+				c.PropFail(prop, fmt.Sprintf("extension-map shapes %d,%d of %s: %s=%v, content equal=%v", i, j, typeName, what, got, want),
+					append(append([]string{}, x.dump...), y.dump...)...)
+			}
+			var got bool
+			if i == j {
+				if pm := x.gen.ProtoMethods(); pm != nil && pm.Equal != nil {
+					got = pm.Equal(protoiface.EqualInput{MessageA: x.gen, MessageB: y.gen}).Equal
+				} else {
+					got = protoreflect.ValueOfMessage(x.gen).Equal(protoreflect.ValueOfMessage(y.gen))
+				}
+			} else {
+				got = proto.Equal(x.gen.Interface(), y.gen.Interface())
+			}
+			if got != want {
+				fail("proto.Equal(generated)", got)
+			}
+			if g := protoreflect.ValueOfMessage(x.gen).Equal(protoreflect.ValueOfMessage(y.gen)); g != want {
+				fail("Value.Equal(generated)", g)
+			}
+			if g := protoreflect.ValueOfMessage(x.dyn).Equal(protoreflect.ValueOfMessage(y.dyn)); g != want {
+				fail("Equal(dynamicpb)", g)
+			}
+			if g := proto.Equal(x.gen.Interface(), y.dyn.Interface()); g != want {
+				fail("proto.Equal(generated, dynamicpb)", g)
+			}
+			if g := bytes.Equal(x.det, y.det); g != want {
+				fail("deterministic bytes equal", g)
+			}
+			c.Stat("ext_shape_pairs")
+			if emit != nil && c.Intn(400) == 0 {
+				if id == "" {
+					id = msgSchemaOf(c, mt.Descriptor())
+				}
+				emit(id, x.dump, y.dump, got)
+			}
+		}
+	}
+}
+
 type equalRun struct {
 	c *Ctx
 }
@@ -723,6 +860,11 @@ func (d *equalRun) corpus() {
 func famEqual(c *Ctx) {
 	d := &equalRun{c: c}
 	d.corpus()
+	for _, tn := range []string{"goproto.proto.test.TestAllExtensions", "goproto.proto.testeditions.TestAllExtensions"} {
+		equalExtShapes(c, "C30", tn, func(id string, a, b []string, eq bool) {
+			c.Case("equal", "equal", append(append([]string{id}, a...), b...), []string{Tok(eq)})
+		})
+	}
 	types := msgAllTypes()
 	var targets []*detTarget
 	for _, mt := range types {
